@@ -170,7 +170,7 @@ func runGrammar(w *hx.Worker, gr *gfam.Grammar, maxLen int, pump int, only strin
 					if mode > 0 && len(in) != maxLen {
 						continue // the other entry points only on the longest inputs (C15 compares them in full)
 					}
-					for _, fn := range []string{"", "dir/f.txt"} {
+					for _, fn := range []string{"", "dir/100%done %s%d.txt"} { // a file name is text, not a format
 						if fn != "" && len(in) > 2 {
 							continue
 						}
@@ -411,7 +411,7 @@ func runMultiline(w *hx.Worker, quick bool) {
 				key := fmt.Sprintf("multiline %s seed#%d %s :: in=%q", name, si, what, in)
 				w.Count("evaluations", 1)
 				w.Count("multiline_inputs", 1)
-				o := check(in, "m.txt")
+				o := check(in, "m%v.txt")
 				if o.Class != "" {
 					w.Violate(hx.Violation{Key: key, Class: o.Class, Detail: map[string]any{"detail": o.Detail, "error": o.ErrText}})
 					return
